@@ -669,7 +669,7 @@ pub fn pipeline(c: &Value) -> Value {
             })();
             let _ = tx.send(r.map_err(|e| format!("{:#}", e)));
         });
-        match rx.recv_timeout(std::time::Duration::from_secs(90)) {
+        match rx.recv_timeout(std::time::Duration::from_secs(c["watchdog_s"].as_u64().unwrap_or(60))) {
             Err(_) => return Err("timeout".into()),
             Ok(Err(e)) => return Err(format!("create failed: {}", e)),
             Ok(Ok(())) => {}
